@@ -63,7 +63,7 @@ ASSUMPTIONS = [
 BUDGET = {"quick": 50, "thorough": 900}
 
 CATS = ["app-a", "app-b", "dev-a", "dev-util"]
-PKGS = ["foo", "foobar", "bar", "Baz"]
+PKGS = ["foo", "fooBar", "bar", "Baz"]
 VERS = ["1", "1-r1", "2", "10"]
 REPO_IDS = ["r1", "r2", "r3"]
 W = {"category": 6, "package": 6, "fullver": 2, "slot": 1, "repo.repo_id": 1, "@atom": 4, "@always": 1}
